@@ -23,6 +23,7 @@ struct Parsed {
   occ: Vec<(usize, String, bool, Position)>,
   posmap: HashMap<String, usize>,
   formatted: String,
+  loc_mismatch: Vec<String>,
 }
 
 fn parse(src: &str) -> Option<Parsed> {
@@ -42,7 +43,8 @@ fn parse(src: &str) -> Option<Parsed> {
   let occ = d.occurrences.iter().map(|(l, n, b)| (*l, n.clone(), *b, d.loc_list[*l].start)).collect();
   let posmap =
     d.loc_list.iter().enumerate().map(|(i, l)| (l.pretty_print_without_file(), i)).collect();
-  Some(Parsed { dump: d.out.clone(), render, occ, posmap, formatted })
+  let loc_mismatch = d.loc_mismatch.clone();
+  Some(Parsed { dump: d.out.clone(), render, occ, posmap, formatted, loc_mismatch })
 }
 
 fn new_state(src: &str) -> (ServerState, ModuleReference) {
@@ -58,6 +60,7 @@ fn new_state(src: &str) -> (ServerState, ModuleReference) {
 fn ssa(src: &str) -> String {
   match parse(src) {
     None => "syntax".to_string(),
+    Some(p) if !p.loc_mismatch.is_empty() => format!("locinv {}", p.loc_mismatch.join(",")),
     Some(p) => format!("{}=> {}", p.dump, p.render),
   }
 }
@@ -173,7 +176,7 @@ fn rn(src: &str, cap: Option<usize>) -> String {
   let g0 = graph_part(&p.render);
   let defs = def_of(&p.render);
   let mut n = 0;
-  let mut sample = String::new();
+  let mut all_renamed: Vec<String> = Vec::new();
   // the rename result depends only on (definition, uses): all occurrences of one binding must
   // produce the same text; the expensive checks run once per binding
   let mut per_def: HashMap<usize, String> = HashMap::new();
@@ -240,10 +243,18 @@ fn rn(src: &str, cap: Option<usize>) -> String {
       return fail("round-trip-differs", &hex(t2.as_bytes()));
     }
     state.update(vec![(mref, src.to_string())]);
-    if sample.is_empty() {
-      sample = hex(t1.as_bytes());
+    all_renamed.push(t1);
+  }
+  // renamed texts handed to the behaviour oracle: first, middle and last renamed binding
+  let mut picks: Vec<usize> = Vec::new();
+  if !all_renamed.is_empty() {
+    for i in [0, all_renamed.len() / 2, all_renamed.len() - 1] {
+      if !picks.contains(&i) {
+        picks.push(i);
+      }
     }
   }
+  let sample = picks.iter().map(|i| hex(all_renamed[*i].as_bytes())).collect::<Vec<_>>().join(",");
   format!("ok {} {}", n, if sample.is_empty() { "-".to_string() } else { sample })
 }
 
